@@ -481,6 +481,12 @@ def check_protocol(res, rule, ctx, name, body, succ, kind, spec, observe, what):
                                 "what this call did to the %s is not contained in the %s at exit (dropped or overwritten)" % (what, what), t["sp"]))
             bad = True
         un = protocol.uncond(v, r) or set()
+        for s in sorted(s for s in x if not isinstance(s, tuple) and s in rs and s not in un and groups.get(s) is None and s in r.mutators):
+            t = r.mutators[s]
+            res.bad(Finding(rule, fid, "%s: unconditional %s kept on one side of the merge only" % (name, mir.last_seg(mir.callee(t) or "?")),
+                            "this call is made whichever way the condition goes, but the %s at exit contains its effects only when one side of a merge is selected "
+                            "(the other side was lowered from a record saved before the call)" % what, t["sp"]))
+            bad = True
         for s in cond_sites & un:
             t = r.mutators[s]
             res.bad(Finding(rule, fid, "%s: %s child (%s) is unconditional" % (name, groups[s], mir.last_seg(mir.callee(t) or "?")),
